@@ -45,6 +45,12 @@ def verifyLoop : List Bool → Bool
   | [] => true
   | r :: rest => if !r then false else verifyLoop rest
 
+/-- the worker pool of `verifyTxsSignature`: `w` goroutines (`w = runtime.NumCPU()`) take transactions from one shared
+channel; `takes[i] < w` is the worker that happened to take transaction `i` (with `w = 0` nobody can take anything:
+`wg.Wait()` returns at once, the result channel is closed empty). The result lists of the workers, in worker order: -/
+def workerResults (w : Nat) (takes : List Nat) (verdicts : List Bool) : List (List Bool) :=
+  (List.range w).map fun k => ((takes.zip verdicts).filter (fun p => p.1 = k)).map (·.2)
+
 /-! ### DelDupKey -/
 
 /-- one iteration: a key seen before overwrites the entry at its first position, a new key is appended. -/
@@ -74,6 +80,8 @@ def findByValue {K V : Type} [DecidableEq V] (ty : V) : List (K × V) → Option
 /-! ### the committed site list -/
 
 def expectedSites : List (String × String) := [
+  ("ncpu common/merkle/merkle.go GetMerkleRoot runtime.NumCPU in `ncpu := runtime.NumCPU()`", "modelled: fanin_by_index for the collection; the dependence of the chunking on the worker count is property C18 (NumCPU >= 1; ncpu <= 1 takes the sequential path)"),
+  ("ncpu types/block.go verifyTxsSignature runtime.NumCPU in `cpuNum := runtime.NumCPU()`", "modelled: verify_worker_count_irrelevant (every worker count >= 1 gives the conjunction of all verdicts; NumCPU() is always >= 1; zero_workers_accept_invalid shows why 0 must not occur)"),
   ("field-write common/db/go_ssdb.go SsdbBench.read SsdbBench.readCount", "benign: latency counters of the ssdb backend (not a configured backend of the execution path), only printed"),
   ("field-write common/db/go_ssdb.go SsdbBench.read SsdbBench.readNum", "benign: latency counters of the ssdb backend (not a configured backend of the execution path), only printed"),
   ("field-write common/db/go_ssdb.go SsdbBench.read SsdbBench.readTime", "benign: latency counters of the ssdb backend (not a configured backend of the execution path), only printed"),
